@@ -1,8 +1,8 @@
 #!/bin/bash
-# usage: seedcheck.sh <seeded-dir-name> [check-id] [worktree-tag]
+# usage: seedcheck.sh <seeded-dir-name | harmless/<P>-<k>> [check-id] [worktree-tag]
 # applies /verif/seeded/<name>/patch.diff to a scratch worktree of /repo (outside /repo and /verif) and runs ./check
 # from a private clone of /verif against it; /repo and /verif stay untouched
-S=$1; P=${S%%-*}; CID=${2:-$P}; TAG=${3:-$P}
+S=$1; B=$(basename $S); P=${B%%-*}; CID=${2:-$P}; TAG=${3:-$P}
 WT=/tmp/seed/wtS_$TAG
 T=/tmp/kv/seedchk_$TAG/verif
 mkdir -p /tmp/seed /tmp/kv/seedchk_$TAG
